@@ -17,7 +17,12 @@
 (*                    the independent decoder reads the source picture,        *)
 (*                    INCLUDING the font page (attribute bit 3 in 512 mode)    *)
 (*   EngineDecodeEq   engine decode of compressed = engine decode of raw       *)
-(* Model layer (drift): engine decode = source; bytes = XBinCompressor.        *)
+(* Model layer (drift): engine decode = source; for buffers with ml = 1 the    *)
+(* bytes equal what XBinCompressor.tla (the transcribed greedy run builder, as *)
+(* it is or with the proposed font-page repair) produces.                      *)
+(* Registers: 4 buffers, 5 rows, 6/7/8 rows of class exh3/exh2/random, 9 rows  *)
+(* in 512-character buffers, 10 rows decoded with a wrong font page, 11 rows   *)
+(* compared with the compressor model.                                         *)
 EXTENDS XBinCompressor, TraceLib, FiniteSets
 VARIABLES l
 vars == <<l>>
